@@ -174,6 +174,7 @@ impl<'a> Model<'a> {
                         self.locals.clear();
                     }
                 }
+                Item::OddComment(_) => {}
                 Item::Marker(b) => self.byte_bits(*b),
                 Item::Include(sp) | Item::IfInclude(sp) => match resolve(path, sp, &self.builtins) {
                     Resolved::Err(e) => return Err(Stop::Error(e)),
